@@ -95,7 +95,7 @@ pub fn run_history<W: Write>(
             }
             _ => None,
         };
-        if let Some((p, subtree)) = target {
+        if let Some((p, subtree)) = target.filter(|_| prof.hygiene) {
             if let Some(key) = path_key(&p) {
                 for h in 0..NHANDLES {
                     let hit = match &bound[h] {
